@@ -12,10 +12,10 @@ extern "C" {
 }
 typedef long double LD;
 
-enum { L_TRAP, L_BELL, L_REVERSED, L_CRUISE, L_NO_CRUISE, L_TA_ZERO, L_TD_ZERO, L_AM_REDUCED, L_OPPOSING_V0, L_CLAMPED, L_RETURN_NONPOS, L_V_ON_LIMIT, L_V1_REWRITTEN, L_UNEQUAL_ACC_DEC, L_REPAIRED, L_LATTICE, L_SEARCH_GRID };
+enum { L_TRAP, L_BELL, L_REVERSED, L_CRUISE, L_NO_CRUISE, L_TA_ZERO, L_TD_ZERO, L_AM_REDUCED, L_OPPOSING_V0, L_CLAMPED, L_RETURN_NONPOS, L_V_ON_LIMIT, L_V1_REWRITTEN, L_UNEQUAL_ACC_DEC, L_REPAIRED, L_LATTICE, L_SEARCH_GRID, L_ZERO_LENGTH };
 static char const *const labels[] = {"trapezoid", "bell", "reversed_travel", "cruise_phase", "no_cruise_phase", "acceleration_phase_empty", "deceleration_phase_empty",
                                      "bell_acceleration_limit_not_reached", "initial_velocity_opposes_travel", "boundary_velocity_clamped", "generator_returned_nonpositive",
-                                     "boundary_velocity_on_limit", "final_velocity_rewritten_by_planner", "trap_unequal_acc_dec_and_speeds", "bell_request_repaired_to_feasible", "all_quantities_on_a_coarse_lattice", "single_phase_switch_over_next_to_a_search_grid_value", nullptr};
+                                     "boundary_velocity_on_limit", "final_velocity_rewritten_by_planner", "trap_unequal_acc_dec_and_speeds", "bell_request_repaired_to_feasible", "all_quantities_on_a_coarse_lattice", "single_phase_switch_over_next_to_a_search_grid_value", "bell_move_of_length_zero_with_velocity_reversal", nullptr};
 static char const *const metrics[] = {"max_limit_ratio_minus_1", "max_continuity_jump_over_tol", "max_derivative_mismatch_over_tol", nullptr};
 static uint8_t const dict[] = {0, 255, 128, 127};
 static vp_info const info = {"C14", "traj", "", labels, metrics, 64, dict, sizeof(dict)};
@@ -348,6 +348,16 @@ static void case_bell(Tape &t, Ctx &cx)
         v1 = q * (int(t.u8() % unsigned(2 * nv + 1)) - nv);
         if (t.u8() % 3 == 0) { v0 = 0; }
         if (t.u8() % 3 == 0) { v1 = 0; }
+        if ((sb >> 4) % 4 == 3)
+        {
+            // a move of length zero (p1 == p0, the library plans it in the forward frame) that has to turn its velocity around:
+            // feasible by the standard condition whenever v0 + v1 < 0
+            dist = 0;
+            dir = 1;
+            if (v0 + v1 >= 0) { v0 = -std::fabs(v0); v1 = -std::fabs(v1); }
+            if (v0 + v1 == 0) { v0 = -q; }
+            cx.label(L_ZERO_LENGTH);
+        }
         o0 = v0 * dir < 0;
         o1 = v1 * dir < 0;
         cx.label(L_LATTICE);
